@@ -48,6 +48,11 @@ contains
     do i = 1, n
       c(i) = c(i) * 2.0
     end do
+    do j = 1, n
+      do i = 1, n
+        call helper(c, i)
+      end do
+    end do
     do i = 1, n
       u(i) = c(i) + shared(i)
     end do
@@ -354,7 +359,6 @@ def run_chunk(job):
                                 {"prog": prog, "after": name,
                                  "diff": [c26_fp.diff_component(a, b) for a, b in
                                           zip(cont[2].raw or ("", "", ""), again.raw)]})
-                        rec.continuity = None
                 t = cls(*cargs)
                 o = None if opt is None else dict(opt)
                 before = rec.counts["ok"] + rec.counts["crash"]
